@@ -80,7 +80,8 @@ type CCase struct {
 	Key  string   `json:"key"`
 	Tags []string `json:"tags"`
 	Ops  []COp    `json:"ops"`
-	FS   bool     `json:"fs"` // loader 2 is a FileSystemLoader on a scratch directory
+	FS   bool     `json:"fs"`   // loader 2 is a FileSystemLoader on a scratch directory
+	Auto bool     `json:"auto"` // auto-reload is on from the start
 }
 
 func newCounting() countingLoader {
@@ -159,6 +160,15 @@ func (w *cacheWorld) apply(op *COp) (served int, msg string) {
 		}
 	case "register":
 		if err := w.e.RegisterString(op.N, fmt.Sprintf("%s:%d", op.N, op.V)); err != nil {
+			return -2, err.Error()
+		}
+	case "regcompiled":
+		lm := int64(4102444800) // far in the future
+		if op.B {
+			lm = 0
+		}
+		ct := &twig.CompiledTemplate{Name: op.N, Source: fmt.Sprintf("%s:%d", op.N, op.V), LastModified: lm, CompileTime: 1}
+		if err := w.e.RegisterCompiledTemplate(ct); err != nil {
 			return -2, err.Error()
 		}
 	case "put":
@@ -245,6 +255,8 @@ func describe(op *COp) string {
 		return "render(" + op.N + ")"
 	case "register":
 		return fmt.Sprintf("register(%s,v%d)", op.N, op.V)
+	case "regcompiled":
+		return fmt.Sprintf("regcompiled(%s,v%d,old=%v)", op.N, op.V, op.B)
 	case "put":
 		return fmt.Sprintf("put(L%d,%s,v%d,mt%d)", op.I, op.N, op.V, op.Mt)
 	case "delete":
@@ -257,6 +269,9 @@ func runCacheHist(c *CCase, rec *bufio.Writer, traceNo int) (res Result) {
 	res = Result{Prop: c.Prop, Key: c.Key, Tags: c.Tags, Pass: true, Runs: len(c.Ops)}
 	w := newCacheWorld(c.FS)
 	defer w.close()
+	if c.Auto {
+		w.e.SetAutoReload(true)
+	}
 	var trail []string
 	defer func() {
 		if p := recover(); p != nil {
